@@ -142,6 +142,7 @@ MustCertify(tr, bt, ow) ==            \* "when dealer and verifiers follow the p
 
 DealReq(kind) ==
   [allowed |-> IF kind = "good" THEN (IF hasDeal THEN {"approve", "error"} ELSE {"approve"})
+               ELSE IF kind = "badsid" THEN {"approve", "complaint", "error"}    \* honest content, only the announced id is off
                ELSE {"complaint", "error"}]
 
 (* the observer's own deal has the session's T and commitments; otherwise its aggregator tracks the session id of
